@@ -2,6 +2,9 @@
 From Coq Require Import List Bool ZArith QArith.
 From GV Require Import Base.Outcome Base.AMap Model.GState Model.Creation Model.Query
      Model.Components Model.Cluster Model.Square Spec.ClusterDef Spec.ClusterSpec Proofs.ClusterDefOk.
+From GV Require Import Spec.EdgeAdj Proofs.WFDefs Proofs.HistoryOk Proofs.ClusterOk Proofs.ClusterWF Proofs.ClusterDirOk
+     Proofs.SquareOk Proofs.ClusterRangeWF.
+From Coq Require Import Lia.
 Import ListNotations.
 Close Scope Q_scope.
 Open Scope Z_scope.
@@ -63,4 +66,58 @@ Proof. vm_compute. reflexivity. Qed.
 Example eq_def_hypotheses :
   on_graph ex_ug (fun g => nbr_ok_b Z.eqb g && negb (directed (sp g)) &&
                            is_ok (triangles Z.eqb g (Some [2])) && is_ok (clustering Z.eqb g None)) false = true.
+Proof. vm_compute. reflexivity. Qed.
+
+(* ---- the end-to-end theorems (C11_*_wf / C11_*_reachable) are not vacuous: the hypotheses on
+   the name order hold for integers, every graph built by new_from_nodes_and_edges is WF, the
+   example graphs are built and the calls on them return ---- *)
+Lemma z_eqb_spec : forall x y : Z, Z.eqb x y = true <-> x = y.
+Proof. apply Z.eqb_eq. Qed.
+Lemma z_ltb_asym : forall x y : Z, Z.ltb x y = true -> Z.ltb y x = false.
+Proof. intros x y H. apply Z.ltb_lt in H. apply Z.ltb_ge. lia. Qed.
+Lemma z_ltb_total : forall x y : Z, Z.ltb x y = false -> Z.ltb y x = false -> x = y.
+Proof. intros x y H1 H2. apply Z.ltb_ge in H1. apply Z.ltb_ge in H2. lia. Qed.
+
+Lemma built_WF : forall ns es s (g : gstate Z Z),
+  new_from_nodes_and_edges Z.eqb Z.ltb ns es s = Ok g -> WF Z.eqb Z.ltb g.
+Proof.
+  intros ns es s g H. apply (WF_reachable Z.eqb Z.ltb z_eqb_spec z_ltb_asym z_ltb_total s).
+  exact (new_from_reachable Z.eqb Z.ltb z_eqb_spec ns es s g H).
+Qed.
+
+(* for every built graph: triangles = definition over the edge list; every clustering value in [0,1] *)
+Lemma end_to_end_triangles_built : forall ns es s (g : gstate Z Z),
+  new_from_nodes_and_edges Z.eqb Z.ltb ns es s = Ok g -> forall nn m v,
+  triangles Z.eqb g nn = Ok m -> In v (requested_names g nn) -> In v (get_all_node_names g) ->
+  lookup Z.eqb v m = Some (tri Z.eqb (get_all_node_names g) (edge_adjb Z.eqb g) v).
+Proof.
+  intros ns es s g H. exact (triangles_wf Z.eqb Z.ltb z_eqb_spec z_ltb_total g (built_WF _ _ _ g H)).
+Qed.
+
+Lemma end_to_end_range_built : forall ns es s (g : gstate Z Z),
+  new_from_nodes_and_edges Z.eqb Z.ltb ns es s = Ok g -> forall nn m v c,
+  clustering Z.eqb g nn = Ok m -> lookup Z.eqb v m = Some c -> (0 <= c /\ c <= 1)%Q.
+Proof.
+  intros ns es s g H. exact (clustering_unit_wf Z.eqb Z.ltb z_eqb_spec z_ltb_total g (built_WF _ _ _ g H)).
+Qed.
+
+Example end_to_end_hypotheses :
+  (is_ok ex_ug && is_ok ex_dg &&
+   on_graph ex_ug (fun g => negb (directed (sp g)) && is_ok (triangles Z.eqb g None) && is_ok (clustering Z.eqb g None) &&
+                            is_ok (generalized_degree Z.eqb g (Some [0; 2])) && is_ok (transitivity Z.eqb g) &&
+                            is_ok (square_clustering Z.eqb g None)) false &&
+   on_graph ex_dg (fun g => directed (sp g) && is_ok (clustering Z.eqb g None)) false)%bool = true.
+Proof. vm_compute. reflexivity. Qed.
+
+(* the values on the examples: node 2 of ex_ug has 1 triangle, clustering 1/3; node 4 sits in one square *)
+Example end_to_end_values :
+  on_graph ex_ug (fun g => (tri Z.eqb (get_all_node_names g) (edge_adjb Z.eqb g) 2,
+                            Qeq_bool (cc Z.eqb (get_all_node_names g) (edge_adjb Z.eqb g) 2) (1 # 3),
+                            Qeq_bool (square_def Z.eqb (get_all_node_names g) (edge_adjb Z.eqb g) 4) 1,
+                            gen_degree Z.eqb (get_all_node_names g) (edge_adjb Z.eqb g) 2 1))
+           (0%nat, false, false, 0%nat) = (1%nat, true, true, 2%nat).
+Proof. vm_compute. reflexivity. Qed.
+
+Example end_to_end_directed_value :
+  on_graph ex_dg (fun g => Qeq_bool (cc_directed Z.eqb (get_all_node_names g) (has_edge_b Z.eqb g) 0) (1 # 2)) false = true.
 Proof. vm_compute. reflexivity. Qed.
